@@ -95,6 +95,10 @@ impl<CS: CLCiphersuite> Signature<CL03<CS>> {
 
     //TODO: tenere solo verify_multiattr visto che funziona anche con un solo messaggio?
     pub fn verify(&self, pk: &CL03PublicKey, a_bases: &Bases, message: &CL03Message) -> bool {
+        // attributes are non-negative lm-bit integers: without this check (e, s, v * a_0^k) verifies for m + k*e
+        if message.value < 0 || message.value.significant_bits() > CS::lm {
+            return false;
+        }
         let sign = self.cl03Signature();
 
         let lhs = Integer::from(sign.v.pow_mod_ref(&sign.e, &pk.N).unwrap());
@@ -125,6 +129,13 @@ impl<CS: CLCiphersuite> Signature<CL03<CS>> {
             panic!("Not enought a_bases!");
         }
 
+        // attributes are non-negative lm-bit integers: without this check (e, s, v * a_i^k) verifies for m_i + k*e
+        if messages
+            .iter()
+            .any(|m| m.value < 0 || m.value.significant_bits() > CS::lm)
+        {
+            return false;
+        }
         let sign = self.cl03Signature();
 
         let lhs = Integer::from(sign.v.pow_mod_ref(&sign.e, &pk.N).unwrap());
